@@ -11,6 +11,7 @@ import NibabelModel.Generated.C06Funcs
 import NibabelModel.Model.C06Py
 import NibabelModel.Lemmas.PyVal
 import NibabelModel.Lemmas.C06_Axis
+import NibabelModel.Lemmas.C06_Optimize
 set_option linter.unusedSimpArgs false
 namespace Nb.C06
 open Nb.Py Nb.Py.V
@@ -352,5 +353,269 @@ theorem gen_optimize_slicer_eq (h : Heuristic) (it : Item) (n : Nat) (allFull sl
   | int i => exact gen_optimize_slicer_int h i n allFull slowest stride
   | slice s => exact gen_optimize_slicer_slice h s n allFull slowest stride (hv s rfl)
   | newaxis => exact absurd rfl hit
+
+/-! ### optimize_read_slicers (a translated LOOP) equals the model's `optimizeLoop` -/
+
+/-- items as `optimize_read_slicers` receives them: canonical, slices valid -/
+def ItemsValid (items : List Item) : Prop := ∀ s, Item.slice s ∈ items → s.Valid
+
+theorem ofResult_ok (r : ReadItem) (p : PostItem) : ofResult (.ok (r, p)) = .ok (.tup2 (ofRead r) (ofPost p)) := rfl
+theorem ofResult_err (e : Nb.C06.Err) : ofResult (.error e) = .error .valueError := rfl
+
+theorem optimizeSlicer_err_value (h : Heuristic) (it : Item) (n : Nat) (a s : Bool) (st : Nat) (e : Nb.C06.Err)
+    (he : optimizeSlicer h it n a s st = .error e) : e = .value :=
+  ((optimizeSlicer_error_iff' h it n a s st e).mp he).1
+
+theorem isIntegral_ofRead (r : ReadItem) (hr : r ≠ .newaxis) : isIntegral (ofRead r) = r.isInt := by
+  cases r <;> simp_all [ofRead, ReadItem.isInt]
+
+theorem pyEq_ofRead_full (r : ReadItem) (hr : r ≠ .newaxis) :
+    pyEq (ofRead r) (slice1 V.none) = r.isFull := by
+  cases r <;> simp_all [ofRead, ReadItem.isFull, slice1]
+
+theorem optimizeSlicer_ne_newaxis (h : Heuristic) (it : Item) (n : Nat) (a sl : Bool) (st : Nat)
+    (r : ReadItem) (p : PostItem) (hit : it ≠ .newaxis)
+    (hres : optimizeSlicer h it n a sl st = .ok (r, p)) : r ≠ .newaxis := by
+  unfold optimizeSlicer at hres
+  intro hr
+  subst hr
+  cases it with
+  | newaxis => exact hit rfl
+  | int i => 
+    simp only at hres
+    repeat' split at hres
+    all_goals simp_all
+  | slice s =>
+    simp only at hres
+    repeat' split at hres
+    all_goals simp_all [readOfFilled]
+
+abbrev Loc := Gen.C06F.optimize_read_slicers_Locals
+
+structure LoopInv (s : Loc) (full : List Nat) (k stride : Nat) (allFull : Bool) (accR accP : List V) : Prop where
+  shape : s.in_shape = ofShape full
+  realNo : s.real_no = .int (k : Int)
+  stride : s.stride = .int (stride : Int)
+  allFull : s.all_full = .bool allFull
+  r : s.read_slicers = ofList accR
+  p : s.post_slicers = ofList accP
+
+theorem body_newaxis (H : V → V → V → M V) (s : Loc) (accR accP : List V)
+    (hr : s.read_slicers = ofList accR) (hp : s.post_slicers = ofList accP) :
+    Gen.C06F.optimize_read_slicers_body1 H { s with slicer := V.none } =
+      .ok (.next { s with slicer := V.none, read_slicers := ofList (accR ++ [V.none]),
+                          post_slicers := ofList (accP ++ [slice1 V.none]) }) := by
+  unfold Gen.C06F.optimize_read_slicers_body1
+  simp [hr, hp]
+
+theorem ofShape_get (full : List Nat) (k : Nat) :
+    getItem (ofShape full) (.int (k : Int)) =
+      match full[k]? with | some n => .ok (.int (n : Int)) | Option.none => .error .indexError := by
+  unfold ofShape
+  rw [getItem_ofList_nat]
+  simp only [List.getElem?_map]
+  cases full[k]? <;> rfl
+
+theorem body_real_err_index (H : V → V → V → M V) (s : Loc) (full : List Nat) (k : Nat) (x : V)
+    (hx : isNone x = false)
+    (hs : s.in_shape = ofShape full) (hk : s.real_no = .int (k : Int)) (hfull : full[k]? = Option.none) :
+    Gen.C06F.optimize_read_slicers_body1 H { s with slicer := x } = .error .indexError := by
+  unfold Gen.C06F.optimize_read_slicers_body1
+  simp [hx, hs, hk, ofShape_get, hfull]
+
+theorem body_real (h : Heuristic) (s : Loc) (full : List Nat) (k stride : Nat) (allFull : Bool)
+    (accR accP : List V) (it : Item) (n : Nat)
+    (hit : it ≠ .newaxis) (hv : ∀ sl, it = .slice sl → sl.Valid)
+    (inv : LoopInv s full k stride allFull accR accP) (hfull : full[k]? = some n) :
+    Gen.C06F.optimize_read_slicers_body1 (liftH h) { s with slicer := ofItem it } =
+      match optimizeSlicer h it n allFull (decide (k + 1 = full.length)) stride with
+      | .error _ => .error .valueError
+      | .ok (r, p) => .ok (.next { s with
+          slicer := ofItem it, dim_len := .int (n : Int), real_no := .int ((k + 1 : Nat) : Int),
+          is_last := .bool (decide (k + 1 = full.length)),
+          read_slicer := ofRead r, post_slicer := ofPost p,
+          read_slicers := ofList (accR ++ [ofRead r]),
+          all_full := .bool (allFull && r.isFull),
+          post_slicers := ofList (if r.isInt then accP else accP ++ [ofPost p]),
+          stride := .int ((stride * n : Nat) : Int) }) := by
+  have hx : isNone (ofItem it) = false := by
+    cases it with
+    | int i => rfl
+    | slice sl => obtain ⟨a, b, c⟩ := sl; rfl
+    | newaxis => exact absurd rfl hit
+  have hopt := gen_optimize_slicer_eq h it n allFull (decide (k + 1 = full.length)) stride hit hv
+  unfold Gen.C06F.optimize_read_slicers_body1
+  have hlen : len (ofShape full) = .ok (.int (full.length : Int)) := by
+    unfold ofShape; rw [len_ofList]; simp
+  have hdec : pyEq (int ((k : Int) + 1)) (int (full.length : Int)) = decide (k + 1 = full.length) := by
+    simp only [pyEq_int]
+    by_cases hkl : k + 1 = full.length
+    · simp [hkl]; omega
+    · simp [hkl]; omega
+  simp [hx, inv.shape, inv.realNo, inv.stride, inv.allFull, inv.r, inv.p, ofShape_get, hfull, hlen, hdec, hopt]
+  cases hres : optimizeSlicer h it n allFull (decide (k + 1 = full.length)) stride with
+  | error e => simp [ofResult]
+  | ok rp =>
+    obtain ⟨r, p⟩ := rp
+    have hrn : r ≠ .newaxis := optimizeSlicer_ne_newaxis h it n allFull _ stride r p hit hres
+    have h1 := isIntegral_ofRead r hrn
+    have h2 := pyEq_ofRead_full r hrn
+    simp [ofResult, h1, h2]
+    cases allFull <;> cases hri : r.isInt <;> simp [hri]
+
+theorem drop_head (full : List Nat) (k n : Nat) (shape : List Nat) (hd : full.drop k = n :: shape) :
+    full[k]? = some n ∧ full.drop (k + 1) = shape ∧ (decide (k + 1 = full.length) = shape.isEmpty) := by
+  have h1 : full[k]? = some n := by
+    have := List.getElem?_drop (xs := full) (i := k) (j := 0)
+    rw [hd] at this; simpa using this.symm
+  have h2 : full.drop (k + 1) = shape := by
+    have : full.drop (k + 1) = (full.drop k).drop 1 := by rw [List.drop_drop]
+    rw [this, hd]; rfl
+  refine ⟨h1, h2, ?_⟩
+  have hl : (full.drop k).length = full.length - k := List.length_drop
+  rw [hd] at hl
+  cases shape with
+  | nil => simp at hl ⊢; omega
+  | cons a t => simp at hl ⊢; omega
+
+theorem drop_nil_get (full : List Nat) (k : Nat) (hd : full.drop k = []) : full[k]? = Option.none := by
+  have : full.length ≤ k := by
+    have hl : (full.drop k).length = full.length - k := List.length_drop
+    rw [hd] at hl; simp at hl; omega
+  exact List.getElem?_eq_none this
+
+/-- the loop of the translated `optimize_read_slicers` computes the model's `optimizeLoop` -/
+theorem loop_eq (h : Heuristic) (items : List Item) (hv : ItemsValid items) :
+    ∀ (s : Loc) (full : List Nat) (k stride : Nat) (allFull : Bool) (accR accP : List V),
+      LoopInv s full k stride allFull accR accP →
+      match optimizeLoop h items (full.drop k) stride allFull with
+      | .ok (rs, ps) => ∃ s', Gen.C06F.optimize_read_slicers_loop1 (liftH h) (ofList (items.map ofItem)) s
+            = .ok (.next s') ∧ s'.read_slicers = ofList (accR ++ rs.map ofRead) ∧
+            s'.post_slicers = ofList (accP ++ ps.map ofPost)
+      | .error e => Gen.C06F.optimize_read_slicers_loop1 (liftH h) (ofList (items.map ofItem)) s
+            = .error (mapErr e) := by
+  induction items with
+  | nil =>
+    intro s full k stride allFull accR accP inv
+    simp [optimizeLoop, Gen.C06F.optimize_read_slicers_loop1]
+    exact ⟨inv.r, inv.p⟩
+  | cons it rest ih =>
+    intro s full k stride allFull accR accP inv
+    have hvr : ItemsValid rest := fun sl hm => hv sl (List.mem_cons_of_mem _ hm)
+    cases it with
+    | newaxis =>
+      have hb := body_newaxis (liftH h) s accR accP inv.r inv.p
+      have := ih hvr _ full k stride allFull (accR ++ [V.none]) (accP ++ [slice1 V.none])
+        (⟨inv.shape, inv.realNo, inv.stride, inv.allFull, rfl, rfl⟩ :
+          LoopInv { s with slicer := V.none, read_slicers := ofList (accR ++ [V.none]), post_slicers := ofList (accP ++ [slice1 V.none]) } full k stride allFull (accR ++ [V.none]) (accP ++ [slice1 V.none]))
+      simp only [List.map_cons, ofList_cons, ofItem, Gen.C06F.optimize_read_slicers_loop1, hb, optimizeLoop]
+      simp only [bind, Except.bind, pure, Except.pure, bind_ok]
+      cases hrec : optimizeLoop h rest (List.drop k full) stride allFull with
+      | error e => rw [hrec] at this; simpa [Functor.map, Except.map] using this
+      | ok rp =>
+        obtain ⟨rs, ps⟩ := rp
+        rw [hrec] at this
+        obtain ⟨s', e1, e2, e3⟩ := this
+        refine ⟨s', by simpa using e1, ?_, ?_⟩
+        · simpa [ofRead] using e2
+        · simpa [ofPost, slice1, pySliceNone, ofPySlice] using e3
+    | int i =>
+      have hit : (Item.int i) ≠ Item.newaxis := by intro hc; cases hc
+      have hvi : ∀ s0, (Item.int i) = Item.slice s0 → s0.Valid := (fun s0 hc => by cases hc)
+      cases hd : full.drop k with
+      | nil =>
+        have hg := drop_nil_get full k hd
+        have hb := body_real_err_index (liftH h) s full k (ofItem (Item.int i)) (by rfl) inv.shape inv.realNo hg
+        simp only [List.map_cons, ofList_cons, Gen.C06F.optimize_read_slicers_loop1, hb, optimizeLoop]
+        simp [mapErr]
+      | cons n shape =>
+        obtain ⟨hg, hdrop, hlast⟩ := drop_head full k n shape hd
+        have hb := body_real h s full k stride allFull accR accP (Item.int i) n hit hvi inv hg
+        rw [hlast] at hb
+        simp only [List.map_cons, ofList_cons, Gen.C06F.optimize_read_slicers_loop1, optimizeLoop]
+        simp only [bind, Except.bind, pure, Except.pure]
+        rw [hb]
+        cases hres : optimizeSlicer h (Item.int i) n allFull shape.isEmpty stride with
+        | error e =>
+          have := optimizeSlicer_err_value h _ n allFull _ stride e hres
+          subst this
+          simp [mapErr]
+        | ok rp =>
+          obtain ⟨r, p⟩ := rp
+          simp only []
+          have := ih hvr _ full (k + 1) (stride * n) (allFull && r.isFull) (accR ++ [ofRead r])
+            (if r.isInt then accP else accP ++ [ofPost p])
+            (⟨inv.shape, rfl, rfl, rfl, rfl, rfl⟩ :
+              LoopInv { s with slicer := ofItem (Item.int i), dim_len := .int (n : Int), real_no := .int ((k + 1 : Nat) : Int), is_last := .bool shape.isEmpty, read_slicer := ofRead r, post_slicer := ofPost p, read_slicers := ofList (accR ++ [ofRead r]), all_full := .bool (allFull && r.isFull), post_slicers := ofList (if r.isInt then accP else accP ++ [ofPost p]), stride := .int ((stride * n : Nat) : Int) } full (k + 1) (stride * n) (allFull && r.isFull) (accR ++ [ofRead r]) (if r.isInt then accP else accP ++ [ofPost p]))
+          rw [hdrop] at this
+          cases hrec : optimizeLoop h rest shape (stride * n) (allFull && r.isFull) with
+          | error e => rw [hrec] at this; simpa using this
+          | ok rp2 =>
+            obtain ⟨rs, ps⟩ := rp2
+            rw [hrec] at this
+            obtain ⟨s', e1, e2, e3⟩ := this
+            refine ⟨s', by simpa using e1, ?_, ?_⟩
+            · simpa using e2
+            · cases hri : r.isInt <;> simp [hri] at e3 ⊢ <;> exact e3
+    | slice sl =>
+      have hit : (Item.slice sl) ≠ Item.newaxis := by intro hc; cases hc
+      have hvi : ∀ s0, (Item.slice sl) = Item.slice s0 → s0.Valid := (fun s0 hc => by cases hc; exact hv _ (List.mem_cons_self ..))
+      cases hd : full.drop k with
+      | nil =>
+        have hg := drop_nil_get full k hd
+        have hb := body_real_err_index (liftH h) s full k (ofItem (Item.slice sl)) (by obtain ⟨a, b, c⟩ := sl; rfl) inv.shape inv.realNo hg
+        simp only [List.map_cons, ofList_cons, Gen.C06F.optimize_read_slicers_loop1, hb, optimizeLoop]
+        simp [mapErr]
+      | cons n shape =>
+        obtain ⟨hg, hdrop, hlast⟩ := drop_head full k n shape hd
+        have hb := body_real h s full k stride allFull accR accP (Item.slice sl) n hit hvi inv hg
+        rw [hlast] at hb
+        simp only [List.map_cons, ofList_cons, Gen.C06F.optimize_read_slicers_loop1, optimizeLoop]
+        simp only [bind, Except.bind, pure, Except.pure]
+        rw [hb]
+        cases hres : optimizeSlicer h (Item.slice sl) n allFull shape.isEmpty stride with
+        | error e =>
+          have := optimizeSlicer_err_value h _ n allFull _ stride e hres
+          subst this
+          simp [mapErr]
+        | ok rp =>
+          obtain ⟨r, p⟩ := rp
+          simp only []
+          have := ih hvr _ full (k + 1) (stride * n) (allFull && r.isFull) (accR ++ [ofRead r])
+            (if r.isInt then accP else accP ++ [ofPost p])
+            (⟨inv.shape, rfl, rfl, rfl, rfl, rfl⟩ :
+              LoopInv { s with slicer := ofItem (Item.slice sl), dim_len := .int (n : Int), real_no := .int ((k + 1 : Nat) : Int), is_last := .bool shape.isEmpty, read_slicer := ofRead r, post_slicer := ofPost p, read_slicers := ofList (accR ++ [ofRead r]), all_full := .bool (allFull && r.isFull), post_slicers := ofList (if r.isInt then accP else accP ++ [ofPost p]), stride := .int ((stride * n : Nat) : Int) } full (k + 1) (stride * n) (allFull && r.isFull) (accR ++ [ofRead r]) (if r.isInt then accP else accP ++ [ofPost p]))
+          rw [hdrop] at this
+          cases hrec : optimizeLoop h rest shape (stride * n) (allFull && r.isFull) with
+          | error e => rw [hrec] at this; simpa using this
+          | ok rp2 =>
+            obtain ⟨rs, ps⟩ := rp2
+            rw [hrec] at this
+            obtain ⟨s', e1, e2, e3⟩ := this
+            refine ⟨s', by simpa using e1, ?_, ?_⟩
+            · simpa using e2
+            · cases hri : r.isInt <;> simp [hri] at e3 ⊢ <;> exact e3
+
+/-- **optimize_read_slicers**: the function translated from the source computes the model's
+    `optimizeLoop` (started with stride = itemsize, all_full = True), including the errors. -/
+theorem gen_optimize_read_slicers_eq (h : Heuristic) (items : List Item) (shape : List Nat) (isz : Nat)
+    (hv : ItemsValid items) :
+    Gen.C06F.optimize_read_slicers (ofList (items.map ofItem)) (ofShape shape) (.int (isz : Int)) (liftH h) =
+      match optimizeLoop h items shape isz true with
+      | .ok (rs, ps) => .ok (.tup2 (ofList (rs.map ofRead)) (ofList (ps.map ofPost)))
+      | .error e => .error (mapErr e) := by
+  unfold Gen.C06F.optimize_read_slicers
+  simp only [bind_ok, pure_eq_ok]
+  have := loop_eq h items hv ⟨ofList (items.map ofItem), ofShape shape, .int (isz : Int), .nil, .nil, .int 0,
+      .int (isz : Int), .bool true, .none, .none, .none, .none, .none⟩ shape 0 isz true [] []
+      ⟨rfl, rfl, rfl, rfl, rfl, rfl⟩
+  simp only [List.drop_zero, List.nil_append] at this
+  cases hres : optimizeLoop h items shape isz true with
+  | error e => rw [hres] at this; simp [this]
+  | ok rp =>
+    obtain ⟨rs, ps⟩ := rp
+    rw [hres] at this
+    obtain ⟨s', e1, e2, e3⟩ := this
+    simp [e1, e2, e3]
 
 end Nb.C06
